@@ -81,9 +81,16 @@ impl VWrite for vio::Stdout {}
 pub struct PathBuf { p: std::path::PathBuf }
 #[verifier::external_body]
 pub struct File { f: std::fs::File }
+/// what PathBuf::from accepts in this code base: `String` and `&str` (the text of the path is their characters)
+pub trait VPathText { spec fn path_text(&self) -> Seq<char>; }
+impl VPathText for String { open spec fn path_text(&self) -> Seq<char> { self@ } }
+impl VPathText for &str { open spec fn path_text(&self) -> Seq<char> { self@ } }
+impl VPathText for &String { open spec fn path_text(&self) -> Seq<char> { self@ } }
 impl PathBuf {
     #[verifier::external_body]
-    pub fn from(s: &str) -> PathBuf { unimplemented!() }
+    pub fn from<T: VPathText>(s: T) -> (r: PathBuf)
+        ensures r.chars() == s.path_text()
+    { unimplemented!() }
 }
 /// rule R19: `p.as_ref().to_path_buf()` for `p: impl AsRef<Path>`
 #[verifier::external_body]
